@@ -187,9 +187,9 @@ _TPAIRS = [('key_arg', 'discard_op'), ('in_handler', 'out_handler'), ('key_arg',
            ('unser_value', 'discard_op'), ('in_handler', 'discard_body'), ('out_handler', 'discard_body'),
            ('key_resolver', 'unser_value'), ('force_op', 'discard_op'), ('force_body', 'in_handler'), ('key_arg', 'out_handler'),
            ('discard_op', 'discard_body')]
-# thorough: everything of the quick tier plus twelve pairs of faults (programs <= 2); programs of three opcodes did not
-# finish within the time budget and are not claimed
-_TS = _QS + _shards([], _TPAIRS, _QOPS, [])
+# thorough: everything of the quick tier plus eleven further pairs of faults (programs <= 2; 869 s measured); programs
+# of three opcodes did not finish within the time budget and are not claimed
+_TS = _QS + _shards([], _TPAIRS[1:], _QOPS, [])
 _W = {'f1': 'key_arg', 'f2': None, 'first': _o('A', 1)}
 _QB = {'L': 2, 'OPS': _QOPS, 'EXCSLOTS': [1], 'EXTRACTORS': [0, 1, 2, 3]}
 _TB = {'L': 2, 'OPS': _QOPS, 'EXCSLOTS': [1], 'EXTRACTORS': [0, 1, 2, 3, 4, 5, 6]}
@@ -197,7 +197,7 @@ CONDITIONS = [
     {'fn': 'transparent', 'nontrivial': 'fault-fired',
      'what': 'decorated run vs undecorated twin under single faults and pairs at every step; sharded by (fault kinds, first opcode)',
      'tiers': {'quick': {'bounds': _QB, 'timeout': 500, 'shards': _QS, 'witness_shard': _W},
-               'thorough': {'bounds': _QB, 'timeout': 900, 'shards': _QS, 'witness_shard': _W}}},
+               'thorough': {'bounds': _QB, 'timeout': 900, 'shards': _TS, 'witness_shard': _W}}},
     {'fn': 'threads', 'module': 'harness.C04_threads', 'nontrivial': 'preempted',
      'what': 'two worker threads calling interceptions inside one operation (cooperative rewrite of the real '
              'tape_recorder.py): every schedule with <= P preemptions, discard issued by a worker / an intercepted body / '
